@@ -58,6 +58,8 @@ BOUNDS = {
              "for documents with <= 1 special slot; for two-slot documents the BytesIO x codec part only under the default LAParams",
     "thorough": "all choice vectors with <= 2 non-default slots over the full alphabets; same option grids and document pairs; "
                 "text sinks (StringIO, extract_text) additionally with codec in {utf-8, latin-1, ascii} under the default LAParams (both tiers); "
+                "rotation: 2 documents x page /Rotate in {0,90,180,270} (page 2: +90) x extract_text_to_fp(rotation=) in {0,90,180,270,360,450,-90} x LAParams {None, default} x "
+                "{text, xml} x {StringIO, BytesIO}, each compared with rotation=0 on the hand-rotated document and with its tree (both tiers); "
                 "for documents with <= 1 special slot also real files (wb, w+b, r+b, ab, TemporaryFile, w, w+) compared with BytesIO/StringIO (both tiers)",
 }
 
@@ -160,8 +162,11 @@ def build_pdf(m: dict) -> bytes:
         c2 = b""
     d.set(cat, {"Type": N("Catalog"), "Pages": pages})
     d.set(pages, {"Type": N("Pages"), "Kids": [p1, p2], "Count": 2, "MediaBox": [0, 0, 612, 792]})
-    d.set(p1, {"Type": N("Page"), "Parent": pages, "Resources": res1, "Contents": d.add(Stream({}, c1))})
-    d.set(p2, {"Type": N("Page"), "Parent": pages, "Resources": {"Font": {"F1": font}}, "Contents": d.add(Stream({}, c2))})
+    r1, r2 = m.get("rotate", (0, 0))
+    rot1 = {"Rotate": r1} if r1 else {}
+    rot2 = {"Rotate": r2} if r2 else {}
+    d.set(p1, {"Type": N("Page"), "Parent": pages, "Resources": res1, "Contents": d.add(Stream({}, c1)), **rot1})
+    d.set(p2, {"Type": N("Page"), "Parent": pages, "Resources": {"Font": {"F1": font}}, "Contents": d.add(Stream({}, c2)), **rot2})
     return d.write(cat)
 
 
@@ -451,7 +456,7 @@ FILE_SINKS_BINARY = ["file:wb", "file:w+b", "file:r+b", "file:ab", "file:tmp"]  
 FILE_SINKS_TEXT = ["file:w", "file:w+"]
 
 
-def convert(pdf: bytes, la, output: str, sink: str, codec: str, strip: bool):
+def convert(pdf: bytes, la, output: str, sink: str, codec: str, strip: bool, rotation: int = 0):
     """Return ('ok', value) | ('unrepresentable', msg) | ('exc', signature-part, msg)."""
     hl, lt, *_ = _pdfminer()
     if sink == "return":  # high_level.extract_text: same option plumbing, result returned as str
@@ -485,6 +490,7 @@ def convert(pdf: bytes, la, output: str, sink: str, codec: str, strip: bool):
             hl.extract_text_to_fp(
                 io.BytesIO(pdf), out, output_type=output, codec=c,
                 laparams=None if la is None else lt.LAParams(**la), strip_control=strip,
+                **({"rotation": rotation} if rotation else {}),
             )
         except UnicodeEncodeError as e:
             return ("unrepresentable", str(e)[:80])
@@ -766,6 +772,61 @@ def check_seq(ma: dict, mb: dict, st) -> None:
     st.traces += 1
 
 
+# ------------------------------------------------------------------ rotation
+PAGE_ROTATIONS = [0, 90, 180, 270]
+ROTATION_ARGS = [0, 90, 180, 270, 360, 450, -90]
+ROT_ROWS = [("text", "str", "utf-8", False), ("text", "bytes", "utf-8", False), ("xml", "str", "utf-8", True), ("xml", "bytes", "utf-8", True)]
+ROT_LAPARAMS = [None, {}]
+
+
+def rot_docs():
+    base = PROGRAMS["full"](Chooser(()))
+    return [dict(base), {**base, "tA": "<", "page2": 1}]
+
+
+def _rotated(m: dict, r: int) -> dict:
+    # page 2 carries another /Rotate than page 1, so that the argument is seen to be added per page
+    return {**m, "rotate": (r % 360, (r + 90) % 360)}
+
+
+def _run_rot(args):
+    """Child: extract_text_to_fp(rotation=k) on pages with /Rotate r  ==  rotation=0 on the same pages with /Rotate (r+k) mod 360,
+    and the latter agrees with the layout tree of the hand-rotated document."""
+    pdf, pdf_ref, k, la, row = args
+    output, sink, codec, strip = row
+    got = convert(pdf, la, output, sink, codec, strip, rotation=k)
+    ctx = Ctx(pdf_ref, la)
+    status, outcome, viols = judge(ctx, output, sink, codec, strip)
+    ref = convert(pdf_ref, la, output, sink, codec, strip)
+    if got != ref:
+        g, e = (got[1] if got[0] == "ok" else got), (ref[1] if ref[0] == "ok" else ref)
+        viols = viols + [("C11/rotation-argument-not-added-to-page-rotate", e[:300] if hasattr(e, "__getitem__") else e,
+                          g[:300] if hasattr(g, "__getitem__") else g,
+                          f"rotation={k}: output differs from the same pages with /Rotate increased by {k} (mod 360)")]
+    return status, (h64(repr(got)) if got[0] == "ok" else ("exc", got[1])), viols
+
+
+def check_rot(r: int, st) -> None:
+    _pdfminer()
+    for m in rot_docs():
+        pdf = build_pdf(_rotated(m, r))
+        for k in ROTATION_ARGS:
+            pdf_ref = build_pdf(_rotated(m, r + k))
+            st.states += 1
+            for la in ROT_LAPARAMS:
+                for row in ROT_ROWS:
+                    status, outcome, viols = fork_call(_run_rot, (pdf, pdf_ref, k, la, row))
+                    st.transitions += 1
+                    if status != "judged":
+                        st.not_judged[status] += 1
+                        continue
+                    st.case(None, nontrivial=bool(r or k), outcome=outcome)
+                    for sig, exp, obs, what in viols:
+                        st.violation(sig, {"family": "rot", "pdf": pdf, "pdf_ref": pdf_ref, "rotation": k, "page_rotate": r, "la": la,
+                                           "row": list(row), "slots": m}, exp, obs, what)
+            st.traces += 1
+
+
 # -------------------------------------------------------------------- shards
 def _arity(fam):
     x = Chooser(())
@@ -792,11 +853,18 @@ def shards(tier):
     # family 3: every ordered pair of documents (same object numbers, different fonts) converted one after the other
     n = len(seq_docs())
     out += [("seq", i, None, None) for i in range(n)]
+    # family 4: extract_text_to_fp(rotation=k) x page /Rotate r
+    out += [("rot", r, None, None) for r in PAGE_ROTATIONS]
     return out
 
 
 def run_shard(shard, tier, st):
     fam, prefixes, expand, bound = shard
+    if fam == "rot":
+        check_rot(prefixes, st)
+        if prefixes == 270:
+            st.sample({"family": "rot", "page_rotate": [270, 0], "rotation_args": ROTATION_ARGS, "rows": ROT_ROWS})
+        return
     if fam == "seq":
         docs = seq_docs()
         for j, mb in enumerate(docs):
@@ -830,7 +898,9 @@ def replay(case):
     from mc.core import jenc
 
     _pdfminer()
-    if case.get("family") == "seq":
+    if case.get("family") == "rot":
+        _, _, viols = fork_call(_run_rot, (case["pdf"], case["pdf_ref"], case["rotation"], case["la"], tuple(case["row"])))
+    elif case.get("family") == "seq":
         _, _, viols = fork_call(_run_seq, (case["pdf_a"], case["pdf"], tuple(case["row"])))
         viols = [("C11/after-another-document:" + s.split("/", 1)[1], e, o, w) for s, e, o, w in viols]
     else:
